@@ -21,7 +21,7 @@ extern "C" void verif_value_point();
 
 namespace vv
 {
-constexpr int kMaxKeys = 320;
+constexpr int kMaxKeys = 2400;
 
 // key mode of the running case: 0 = mixed table, 1 = multiples of 64 (all congruent modulo small powers of two),
 // 2 = keys differing only above bit 32
